@@ -1313,3 +1313,190 @@ impl Engine for FanEngine {
         self.kind == DKind::C04
     }
 }
+
+// =============================================================================================
+// "ring" automata: 17 to 100 states with arithmetic transition functions (a: +1, b: affine map, other: stay / sink /
+// reset) and periodic final sets, so that many states are equivalent and blocks of the refinement are large. The
+// exhaustive families stop at 4-5 states; size-dependent code in the minimizer needs these.
+
+pub struct RingEngine {
+    pub kind: DKind,
+}
+
+#[derive(Clone, Debug)]
+struct RingCase {
+    n: usize,
+    bm: usize,
+    bc: usize,
+    other: usize, // 0: stay, 1: go to the last state, 2: go to state 0
+    d: usize,
+    extra: usize, // number of additional unreachable copies of state 1
+}
+
+fn ring_delta(c: &RingCase, q: usize, letter: usize) -> usize {
+    let n = c.n;
+    if q >= n {
+        // unreachable copies behave like state 1
+        return ring_delta(c, 1, letter);
+    }
+    match letter {
+        0 => (q + 1) % n,
+        1 => (q * c.bm + c.bc) % n,
+        _ => match c.other {
+            0 => q,
+            1 => n - 1,
+            _ => 0,
+        },
+    }
+}
+fn ring_final(c: &RingCase, q: usize) -> bool {
+    let q = if q >= c.n { 1 } else { q };
+    q % c.d == 0
+}
+fn ring_build(c: &RingCase) -> Result<Automaton, aws_smt_strings::errors::Error> {
+    let mut b = AutomatonBuilder::new(&0usize);
+    let total = c.n + c.extra;
+    for q in 0..total {
+        b.add_transition(&q, &CharSet::singleton(A), &ring_delta(c, q, 0));
+        b.add_transition(&q, &CharSet::singleton(B), &ring_delta(c, q, 1));
+        b.set_default_successor(&q, &ring_delta(c, q, 2));
+        if ring_final(c, q) {
+            b.mark_final(&q);
+        }
+    }
+    b.build()
+}
+fn ring_cases(tier: Tier) -> Vec<RingCase> {
+    let ns: Vec<usize> = if tier == Tier::Thorough { vec![17, 18, 19, 24, 31, 32, 33, 34, 40, 48, 63, 64, 65, 100, 128, 200] } else { vec![17, 18, 24, 33, 34, 40, 64, 65, 100] };
+    let mut v = vec![];
+    for &n in &ns {
+        for (bm, bc) in [(1usize, 0usize), (2, 0), (0, 0), (1, 2), (3, 1), (0, 5)] {
+            for other in 0..3 {
+                for d in [2usize, 3, 5, 7, n] {
+                    for extra in [0usize, 2] {
+                        if tier == Tier::Quick && (v.len() % 2 == 1) {
+                            v.push(RingCase { n: 0, bm, bc, other, d, extra });
+                            continue;
+                        }
+                        v.push(RingCase { n, bm, bc, other, d, extra });
+                    }
+                }
+            }
+        }
+    }
+    v.retain(|c| c.n > 0);
+    v
+}
+const RING_NB: usize = 48;
+
+impl Engine for RingEngine {
+    fn name(&self) -> &'static str {
+        "ring"
+    }
+    fn meta(&self, ctx: &Ctx) -> Meta {
+        Meta {
+            level: "model_checking",
+            rule: format!("{} automata with 17 to 100 (thorough 200) states: a -> q+1 mod n, b -> an affine map mod n (6 maps, most of them not injective), other -> stay / last state / state 0, final iff q mod d == 0 for d in {{2,3,5,7,n}}, with and without two unreachable copies of a state; many states are equivalent, so the refinement works on large blocks; same checks as for the exhaustive small automata (expected size by own Moore refinement), including sequences of minimize / remove_unreachable_states", ring_cases(ctx.tier).len()),
+            assumptions: vec!["structured, not exhaustive: added because size-dependent code (blocks of more than 16 or 32 states) is out of reach of the exhaustive families".into()],
+            exhaustive: true,
+            space: "see rule".into(),
+        }
+    }
+    fn num_batches(&self, _ctx: &Ctx) -> usize {
+        RING_NB
+    }
+    fn max_group(&self, _ctx: &Ctx, _batch: usize) -> usize {
+        2
+    }
+    fn run_batch(&self, ctx: &Ctx, batch: usize, rep: &mut Report) {
+        let chars = all_chars_of(3);
+        let lay = layout(3);
+        for (i, c) in ring_cases(ctx.tier).iter().enumerate() {
+            if i % RING_NB != batch {
+                continue;
+            }
+            beat();
+            rep.inc("evaluations");
+            rep.inc("ring_automata");
+            if self.kind == DKind::C13 {
+                rep.inc("nontrivial");
+            }
+            let total = c.n + c.extra;
+            let fin: Vec<bool> = (0..total).map(|q| ring_final(c, q)).collect();
+            let spec = |q: usize, ch: u32| ring_delta(c, q, lay.iter().position(|l| l.contains(&ch)).unwrap());
+            // renaming search is only feasible for small automata: C13 on rings checks acceptance and delta through the
+            // identity numbering (states are mentioned in order 0..n)
+            let msgs = if self.kind == DKind::C13 { ring_c13(c, &chars, &spec, &fin) } else { automaton_case(self.kind, total, &|| ring_build(c), &chars, &spec, &fin, true, rep) };
+            if !msgs.is_empty() {
+                rep.violation(self.kind.id(), "ring", json!({"engine": "ring", "n": c.n, "bm": c.bm, "bc": c.bc, "other": c.other, "d": c.d, "extra": c.extra}), format!("ring automaton {:?}: {}", c, msgs.join(" | ")));
+            }
+        }
+    }
+    fn replay(&self, _ctx: &Ctx, v: &Value, rep: &mut Report) {
+        let us = |x: &Value| x.as_u64().unwrap_or(0) as usize;
+        let c = RingCase { n: us(&v["n"]), bm: us(&v["bm"]), bc: us(&v["bc"]), other: us(&v["other"]), d: us(&v["d"]).max(1), extra: us(&v["extra"]) };
+        if c.n < 2 {
+            return;
+        }
+        rep.inc("evaluations");
+        let chars = all_chars_of(3);
+        let lay = layout(3);
+        let total = c.n + c.extra;
+        let fin: Vec<bool> = (0..total).map(|q| ring_final(&c, q)).collect();
+        let spec = |q: usize, ch: u32| ring_delta(&c, q, lay.iter().position(|l| l.contains(&ch)).unwrap());
+        let msgs = if self.kind == DKind::C13 { ring_c13(&c, &chars, &spec, &fin) } else { automaton_case(self.kind, total, &|| ring_build(&c), &chars, &spec, &fin, true, rep) };
+        if !msgs.is_empty() {
+            rep.violation(self.kind.id(), "ring", v.clone(), msgs.join(" | "));
+        }
+    }
+    fn hang_is_violation(&self, _p: &str) -> bool {
+        self.kind == DKind::C04
+    }
+}
+
+/// C13 on a large automaton: accepted, right counts, and the specified transition function up to the renaming that is
+/// forced by walking from the initial state (unreachable states are matched by behaviour)
+fn ring_c13(c: &RingCase, chars: &[u32], spec: &dyn Fn(usize, u32) -> usize, fin: &[bool]) -> Vec<String> {
+    let mut msgs = vec![];
+    let a = match guarded(|| ring_build(c)) {
+        Err(e) => return vec![format!("build() {}", e)],
+        Ok(Err(e)) => return vec![format!("build() rejected a complete conflict-free specification with {:?}", e)],
+        Ok(Ok(a)) => a,
+    };
+    let total = c.n + c.extra;
+    if a.num_states() != total {
+        msgs.push(format!("num_states() = {}, {} states were specified", a.num_states(), total));
+        return msgs;
+    }
+    if a.num_final_states() != fin.iter().filter(|&&f| f).count() {
+        msgs.push("num_final_states() differs from the number of states marked".into());
+    }
+    // forced renaming on the reachable part
+    let mut pi: Vec<Option<usize>> = vec![None; total];
+    pi[0] = Some(a.initial_state().id());
+    let mut stack = vec![0usize];
+    while let Some(q) = stack.pop() {
+        let s = a.state(pi[q].unwrap());
+        if s.is_final() != fin[q] {
+            msgs.push(format!("state {}: final flag differs from the specification", q));
+            return msgs;
+        }
+        for &ch in chars {
+            let t = spec(q, ch);
+            let img = a.next(s, ch).id();
+            match pi[t] {
+                None => {
+                    pi[t] = Some(img);
+                    stack.push(t);
+                }
+                Some(x) => {
+                    if x != img {
+                        msgs.push(format!("state {} on character {}: successor {} but the specification says the state numbered {}", q, ch, img, x));
+                        return msgs;
+                    }
+                }
+            }
+        }
+    }
+    msgs
+}
